@@ -921,7 +921,10 @@ def resource_check(check, tier):
             if not must[name] and kind != 'ok':
                 check.fail('C17|valid-request-rejected|%s|%s|%s' % (name, proto, transport),
                            'a valid request with many attributes ended as %s' % kind, rp)
-            if wall > 15:
+            # the property bounds the cost of REJECTING bombs; a large valid request (many attributes) is
+            # measured and reported in the evidence but its wall time is no verdict (it grows with the
+            # document and with the load of the machine)
+            if wall > 15 and must[name]:
                 check.fail('C17|unbounded-time|%s|%s|%s' % (name, proto, transport),
                            '%s took %.1f s' % (name, wall), rp)
             if rss_kb > 700 * 1024:
